@@ -124,7 +124,78 @@ Theorem C12_bool_null_roundtrip :
   lex_null NULL_ = Some (zlen NULL_) /\ (forall v : str, simple_parse (simple_format v) = Ok v).
 Proof. split; [intros b; destruct b; split; reflexivity | split; reflexivity]. Qed.
 
-(* --- token objects of every single-value class --------------------------------------------------- *)
+(* --- TransactionFlag, PostingFlag ------------------------------------------------------------------------
+   domain: the one-character flags * ! & # ? % P S T C U R M.  'txn' is a SPELLING of the value '*'
+   (TransactionFlag._parse_value('txn') = '*'), not a value: from_value('txn') is outside the domain. *)
+Theorem C12_flag_roundtrip : forall v : str, dom_flag v = true ->
+  txflag_parse (txflag_format v) = Ok v /\ lex_txflag (txflag_format v) = Some (zlen (txflag_format v)) /\
+  simple_parse (simple_format v) = Ok v /\ lex_pflag (simple_format v) = Some (zlen (simple_format v)).
+Proof.
+  intros v H. repeat split; [apply txflag_roundtrip, H | apply len_matched_full, txflag_lexr, H
+                            | apply len_matched_full, pflag_lexr, H].
+Qed.
+Example C12_flag_nonvacuous :
+  dom_flag [42] = true /\ dom_flag [77] = true /\ dom_flag TXN_ = false /\
+  txflag_parse TXN_ = Ok [42] /\ lex_txflag TXN_ = Some 3.
+Proof. repeat split. Qed.
+
+(* --- Account, Currency (identity codecs; the recognisers are the content) -------------------------------
+   an account is a type component and >= 1 name components joined by ':' *)
+Theorem C12_account_roundtrip : forall (t : str) (names : list str),
+  acct_type_ok t = true -> names <> [] -> forallb acct_name_ok names = true ->
+  let v := account_of t names in
+  simple_parse (simple_format v) = Ok v /\ lex_account (simple_format v) = Some (zlen (simple_format v)).
+Proof. intros t names Ht Hn Hok. split; [reflexivity | apply len_matched_full, account_lexr; assumption]. Qed.
+Example C12_account_nonvacuous :
+  acct_type_ok [65; 115] = true /\ forallb acct_name_ok [[70; 45; 111]; [57]; [20013]] = true /\
+  lex_account [65; 58; 66; 58] = Some 3.
+Proof. repeat split. Qed.
+Theorem C12_currency_roundtrip : forall v : str, dom_currency v = true ->
+  simple_parse (simple_format v) = Ok v /\ lex_currency (simple_format v) = Some (zlen (simple_format v)).
+Proof. intros v H. split; [reflexivity | apply len_matched_full, currency_lexr, H]. Qed.
+Example C12_currency_nonvacuous :
+  dom_currency [85; 83; 68] = true /\ dom_currency [65; 39; 46; 95; 45; 57] = true /\ dom_currency [47; 54; 65] = true /\
+  dom_currency [47; 54] = false /\ lex_currency [85; 83; 68; 46] = Some 3.
+Proof. repeat split. Qed.
+
+(* --- Indent: EXCLUDED from the one-lexeme statement --------------------------------------------------------
+   Indent is a SimpleSingleValue token (identity codec, C12_bool_null_roundtrip's last conjunct covers it),
+   but its terminal INDENT = line start, [ \t]+, LOOKAHEAD for a character that is not blank/CR/LF.  A text
+   consisting of blanks only is therefore never an INDENT lexeme: Indent.from_value('    ').raw_text does not
+   re-lex by Parser.parse_token; it is one INDENT token only in context (followed by the posting / meta item).
+   No recogniser is modelled; the harness monitors Indent values inside a parsed transaction. *)
+
+(* --- every lexeme is accepted (the texts the recognisers match completely) -------------------------------
+   String, InlineComment, Tag, Link, MetaKey, Account, Currency, PostingFlag: _parse_value is total
+   (string_parse, inline_parse, tag_parse, link_parse, metakey_parse, simple_parse never return Err);
+   BlockComment: C12_block_verbatim.  The classes whose _parse_value can raise: *)
+Theorem C12_lexemes_accepted : forall s : str,
+  (lex_number s = Some (zlen s) -> exists v, number_parse s = Ok v) /\
+  (lex_date s = Some (zlen s) ->
+     exists a b c c1 c2, s = a ++ c1 :: b ++ c2 :: c /\
+       date_parse s = let v := (int_of_digits a, int_of_digits b, int_of_digits c) in
+                      if valid_date v then Ok v else Err ValueError) /\
+  (lex_bool s = Some (zlen s) -> exists b, bool_parse s = Ok b /\ bool_format b = s) /\
+  (lex_null s = Some (zlen s) -> s = NULL_) /\
+  (lex_txflag s = Some (zlen s) -> exists v, txflag_parse s = Ok v /\ dom_flag v = true) /\
+  (exists v1 v2 v3 v4 v5 v6, string_parse s = Ok v1 /\ inline_parse s = Ok v2 /\ tag_parse s = Ok v3 /\
+     link_parse s = Ok v4 /\ metakey_parse s = Ok v5 /\ simple_parse s = Ok v6).
+Proof.
+  intros s. repeat split; try (intros H; apply len_matched_full in H).
+  - apply number_lexeme_accepted, H.
+  - apply date_lexeme_accepted, H.
+  - apply bool_lexeme_accepted, H.
+  - apply null_lexeme, H.
+  - apply txflag_lexeme_accepted, H.
+  - repeat eexists.
+Qed.
+Example C12_lexemes_accepted_nonvacuous :
+  lex_number [49; 44; 50; 51; 52; 46; 53] = Some 7 /\ lex_date [50; 48; 48; 48; 47; 49; 45; 50] = Some 8 /\
+  lex_bool TRUE_ = Some 4 /\ lex_txflag [80] = Some 1.
+Proof. repeat split. Qed.
+
+(* --- token objects of every single-value class (the lexer side of "accepts every lexeme" is
+   C12_lexemes_accepted / C12_block_verbatim above) --------------------------------------------------- *)
 (* from_raw_text keeps the text verbatim and accepts exactly the texts _parse_value accepts (for Date: the
    lexemes whose meaning is a calendar date); from_value stores the value *)
 Theorem C12_verbatim : forall (V : Type) (parse : str -> res V) (s : str),
@@ -142,20 +213,35 @@ Proof. intros V parse s. split; [apply sv_from_raw_text_accepts | apply sv_from_
                                coherent parse (sv_run parse format parse_first t ops)
    with  coherent parse t := parse (t_raw t) = Ok (t_val t)
          op_ok (SetValue v) := dom v = true ;  op_ok (SetRaw s) := exists v, parse s = Ok v *)
-Theorem C12_history :
+Theorem C12_history_exact :
   history_ok string_parse string_format dom_string /\
   history_ok inline_parse inline_format dom_inline /\
   history_ok date_parse (date_format DatePadded) dom_date /\
-  history_ok number_parse number_format dom_number_exact /\
+  history_ok number_parse number_format dom_number_exact (* exponent <= 0; any exponent: C12_number_history_numeric *) /\
   history_ok tag_parse tag_format dom_tag /\ history_ok link_parse link_format dom_tag /\
   history_ok metakey_parse metakey_format dom_metakey /\
   history_ok bool_parse bool_format (fun _ => true) /\
+  history_ok txflag_parse txflag_format dom_flag /\
   history_ok simple_parse simple_format (fun _ => true).
 Proof.
   repeat split; try (apply history_ok_of); intros;
     first [apply string_roundtrip | apply inline_roundtrip | apply date_roundtrip | apply number_roundtrip_exact
-          | apply tag_roundtrip | apply link_roundtrip | apply metakey_roundtrip | apply bool_roundtrip
+          | apply txflag_roundtrip | apply tag_roundtrip | apply link_roundtrip | apply metakey_roundtrip | apply bool_roundtrip
           | apply simple_roundtrip]; assumption.
+Qed.
+(* Number with ANY exponent (dom_number): after any assignment sequence the raw text parses to a Decimal that
+   is numerically equal (dec_eqb) to the token's value *)
+Theorem C12_number_history_numeric : forall (parse_first : bool) (t : tok decimal) (ops : list (sv_op decimal)),
+  num_coherent t -> Forall (op_ok number_parse dom_number) ops ->
+  exists w, number_parse (t_raw (sv_run number_parse number_format parse_first t ops)) = Ok w /\
+            dec_eqb (t_val (sv_run number_parse number_format parse_first t ops)) w = true.
+Proof. intros pf t ops Ht Hops. exact (number_history_numeric pf t ops Ht Hops). Qed.
+Example C12_number_history_numeric_nonvacuous :
+  num_coherent (sv_from_value number_format (0, [1; 2], 3)) /\
+  Forall (op_ok number_parse dom_number) [SetValue (0, [5], 40); SetRaw [49; 44; 48; 48; 48]].
+Proof.
+  split; [apply number_from_value_numeric; reflexivity|].
+  repeat constructor. eexists. vm_compute. reflexivity.
 Qed.
 Example C12_history_nonvacuous :
   coherent date_parse (sv_from_value (date_format DatePadded) (999, 1, 2)) /\
